@@ -387,7 +387,10 @@ def weighted(prog: Program, rep: Report):
                    f"the draw uses {show(gen) if gen else 'the global RNG'} instead of a generator built in this iteration: "
                    f"ranks that iterated a different number of times draw different global orders, so the union of their "
                    f"slices repeats indices within an epoch", line=c.lineno, clause="C13.3")
-        ok = repl == ("const", False) and num == ("self", "effective_length") and w == ("self", "weights")
+        # the whole epoch, or exactly the part of it that the ranks consume (the first len(self) * world entries of the same draw)
+        used_part = num is not None and term_to_poly(num) == term_to_poly(
+            ("call", ("global", "len"), (("param", fa.self_name),), ())) * term_to_poly(("self", "world_size"))
+        ok = repl == ("const", False) and (num == ("self", "effective_length") or used_part) and w == ("self", "weights")
         rep.decide(ok, "G9.weighted-no-repeat", fi, "multinomial",
                    "multinomial(self.weights, self.effective_length, replacement=False)",
                    f"multinomial is called with replacement={show(repl)}, num_samples={show(num) if num else '?'}, "
